@@ -9,7 +9,7 @@ from concurrent.futures import ThreadPoolExecutor
 
 VERIF = os.path.dirname(os.path.dirname(os.path.abspath(__file__)))
 EXTRA = {"c03_index_nonull": ["C03", "C05"], "c13_swap_pop_linear": ["C13", "C14"], "c13_sorted_keys": ["C13", "C14"], "c20_static_as_reint": ["C20", "C16"], "c15_count_idiom": ["C15"], "c14_erase_remove": ["C14", "C18", "C04"], "c13_key_helper": ["C13", "C14", "C18"], "c20_opaque_memcpy": ["C20", "C07"], "c13_manual_find": ["C13", "C14", "C18"], "c16_binop_inline": ["C16", "C05", "C01", "C17"], "c02_foreign_store": ["C02"], "c13_manual_nocheck": ["C13"], "c05_named_stride": ["C05", "C03", "C07", "C10", "C17"]}
-SEED_CHECKS = {"C03-a": ["C17"], "C07-a": ["C06"], "C14-a": ["C14", "C04"], "C18-a": ["C18", "C14"], "C08-a": ["C08", "C04"], "C04-a": ["C04", "C08"], "C07-b": ["C07"], "C08-b": ["C08"], "C11-b": ["C11"], "C13-b": ["C13"], "C08-c": ["C08"], "C12-c": ["C12"], "C07-c": ["C07"]}
+SEED_CHECKS = {"C03-a": ["C17"], "C07-a": ["C06"], "C14-a": ["C14", "C04"], "C18-a": ["C18", "C14"], "C08-a": ["C08", "C04"], "C04-a": ["C04", "C08"], "C07-b": ["C07"], "C08-b": ["C08"], "C11-b": ["C11"], "C13-b": ["C13"], "C08-c": ["C08"], "C12-c": ["C12"], "C07-c": ["C07", "C05"]}
 
 
 def cases(pattern):
@@ -20,7 +20,7 @@ def cases(pattern):
     for p in sorted(glob.glob(os.path.join(VERIF, "selftest/preserving/*.diff"))):
         name = os.path.basename(p)[:-5]
         allc = ["C%02d" % i for i in range(1, 21)]
-        if name.startswith("ref_R"):
+        if name.startswith(("ref_R", "ref_T")):
             # refactorings written by independent sub-agents, one library area each: the checks whose rules read that area
             area = {"1": ["C01", "C03", "C05", "C16", "C17"], "2": ["C03", "C07", "C09", "C10"], "3": ["C02", "C04", "C06", "C07", "C08", "C20"], "4": ["C02", "C03", "C04", "C14", "C18"],
                     "5": ["C11", "C12", "C13", "C14", "C15", "C18"], "6": ["C04", "C11", "C12", "C13", "C18"], "7": ["C04", "C08", "C10", "C20"], "8": ["C01", "C05", "C14", "C16", "C19"]}[name[5]]
@@ -76,6 +76,8 @@ def run_case(wt, case):
                 m = re.search(r"rule (\S+) at ([^(]+)", pr.stdout)
                 details.append("%s:%s" % (c, m.group(1) if m else "?"))
             elif pr.returncode == 2:
+                if isinstance(patch, list) and "TU has errors" in (pr.stdout + pr.stderr):
+                    return name, "skip", "the composed tree does not compile"
                 details.append("%s:ANALYSIS-BROKEN" % c)
         if must_fire:
             return name, ("ok" if fired else "MISSED"), " ".join(details)
@@ -101,16 +103,24 @@ def main():
             subprocess.check_call(["git", "-C", "/repo", "worktree", "add", "-q", "--detach", wt, "HEAD"])
             wts.append(wt)
         chunks = [cs[i::jobs] for i in range(jobs)]
+        import threading
+        lock = threading.Lock()
+        counts = {"bad": 0, "skip": 0}
         def work(i):
-            return [run_case(wts[i], c) for c in chunks[i]]
-        bad = 0
-        with ThreadPoolExecutor(max_workers=jobs) as ex:
-            for res in ex.map(work, range(jobs)):
-                for name, verdict, det in res:
+            for c in chunks[i]:
+                name, verdict, det = run_case(wts[i], c)
+                with lock:
                     if verdict != "skip":
                         print("%-34s %-12s %s" % (name, verdict, det), flush=True)
+                    else:
+                        counts["skip"] += 1
                     if verdict not in ("ok", "skip"):
-                        bad += 1
+                        counts["bad"] += 1
+        with ThreadPoolExecutor(max_workers=jobs) as ex:
+            list(ex.map(work, range(jobs)))
+        bad = counts["bad"]
+        if counts["skip"]:
+            print("(%d pairs skipped: the patches do not compose)" % counts["skip"])
         print("selftest: %d cases, %d not ok" % (len(cs), bad))
         return 1 if bad else 0
     finally:
